@@ -24,15 +24,17 @@ from collections import Counter
 from . import boot
 
 TIERS = ("quick", "thorough")
+PREPARE_FIRST = {"C20"}
 
 
 class Violation(Exception):
     """The property was observed to fail on the real code."""
 
-    def __init__(self, kind, msg=""):
+    def __init__(self, kind, msg="", case=None):
         super().__init__(f"{kind}: {msg}")
         self.kind = kind
         self.msg = msg
+        self.case = case      # optional: a confirmed / minimised replay case chosen by the check itself
 
 
 class Sub:
@@ -158,7 +160,7 @@ def run_sub(sub, prop, tier, seed, shard, nshards, rec, budget, only_kind_limit=
                 guarded(case, ())
             except Violation as v:
                 prev = seen.get(v.kind)
-                c = jsonable(case)
+                c = jsonable(v.case if v.case is not None else case)
                 if prev is None or len(canon(c)) < len(canon(prev["case"])):
                     seen[v.kind] = {"sub": sub.name, "kind": v.kind, "message": v.msg[:2000], "case": c}
                 if len(seen) >= 8:
@@ -204,15 +206,16 @@ def run_sub(sub, prop, tier, seed, shard, nshards, rec, budget, only_kind_limit=
         from hypothesis import settings, HealthCheck, Phase
         cls = sub.machine(tier, rec)
         steps = getattr(cls, "STEPS", 20)
+        phases = [Phase.generate] if getattr(cls, "NO_SHRINK", False) else [Phase.generate, Phase.shrink]
         st = settings(max_examples=max(1, n), stateful_step_count=steps, deadline=None,
                       database=None, report_multiple_bugs=False,
                       suppress_health_check=list(HealthCheck),
-                      phases=[Phase.generate, Phase.shrink], print_blob=False)
+                      phases=phases, print_blob=False)
         try:
             run_state_machine_as_test(hseed(derive_seed(seed, prop, sub.name, shard))(cls), settings=st)
         except Violation as v:
             out.append({"sub": sub.name, "kind": v.kind, "message": v.msg[:2000],
-                        "case": jsonable({"ops": cls.trace})})
+                        "case": jsonable(v.case if v.case is not None else {"ops": cls.trace})})
     return out
 
 
@@ -303,6 +306,12 @@ def parent_main(prop, modname, tier, seed, nshards, wall):
     procs = []
     env = dict(os.environ)
     env["PYTHONHASHSEED"] = "0"
+    import importlib
+    mod = None
+    if prop in PREPARE_FIRST:
+        # fresh-interpreter reference results must exist before the shards start
+        mod = importlib.import_module(modname)
+        mod.prepare(work, tier)
     for s in range(nshards):
         out = os.path.join(work, f"shard_{s}.json")
         if os.path.exists(out):
@@ -341,8 +350,8 @@ def parent_main(prop, modname, tier, seed, nshards, wall):
             ps["nontrivial"] += v.get("nontrivial", 0)
             ps["wall_s"] = max(ps["wall_s"], v.get("wall_s", 0.0))
 
-    import importlib
-    mod = importlib.import_module(modname)
+    if mod is None:
+        mod = importlib.import_module(modname)
     known = load_known()
     # de-duplicate violations by (sub, kind): keep the smallest case
     best = {}
